@@ -33,6 +33,11 @@ type SessionSpec struct {
 	Hello     *V     `json:"hello,omitempty"` // HELLO details (overrides Roles)
 	Auth      string `json:"auth,omitempty"`  // ticket wampcra cryptosign : answer the CHALLENGE properly
 	AuthID    string `json:"authid,omitempty"`
+	// Limit selects the server the session connects to: rawsocket servers with
+	// RecvLimit 0 (16M, the default server) / 512 / 1000 / 65536 and a small
+	// outbound queue; websocket: any non-zero value selects the server with a
+	// small outbound queue.
+	Limit int `json:"limit,omitempty"`
 }
 
 type History struct {
